@@ -391,7 +391,7 @@ class JsonSerializer(SerializerBase):
         replacer = self.__type_replacements.get(type(obj), None)
         if replacer:
             obj = replacer(obj)
-        if isinstance(obj, set):
+        if isinstance(obj, (set, frozenset)):
             return tuple(obj)  # json module can't deal with sets so we make a tuple out of it
         if isinstance(obj, uuid.UUID):
             return str(obj)
@@ -436,7 +436,7 @@ class MsgpackSerializer(SerializerBase):
         replacer = self.__type_replacements.get(type(obj), None)
         if replacer:
             obj = replacer(obj)
-        if isinstance(obj, set):
+        if isinstance(obj, (set, frozenset)):
             return tuple(obj)  # msgpack module can't deal with sets so we make a tuple out of it
         if isinstance(obj, uuid.UUID):
             return str(obj)
